@@ -458,6 +458,11 @@ SCOPES = [
     ("show primary keys in schema db1.s2", {"DATABASE_NAME": "DB1", "SCHEMA_NAME": "S2"}),
     ("show primary keys in schema s2", {"DATABASE_NAME": "DB1", "SCHEMA_NAME": "S2"}),
     ("show primary keys in table t1", {"TABLE_NAME": "T1"}),
+    # a qualified table scope stays inside the named table's database (that the schema part is ignored is part of the listed finding)
+    ("show primary keys in table s2.t1", {"DATABASE_NAME": "DB1", "TABLE_NAME": "T1"}),
+    ("show primary keys in table db1.s2.t1", {"DATABASE_NAME": "DB1", "TABLE_NAME": "T1"}),
+    ("show unique keys in table s2.t1", {"DATABASE_NAME": "DB1", "TABLE_NAME": "T1"}),
+    ("show imported keys in table db1.s1.t2", {"DATABASE_NAME": "DB1", "TABLE_NAME": "T2"}),
 ]
 
 
@@ -489,7 +494,7 @@ def _scope(si: int, from_other: bool) -> bool:
 @ob(
     "C09.describe_and_show_scope_literals",
     encodes=["fakesnow.transforms.describe_table", "show_schemas", "show_keys", "fakesnow.cursor.FakeSnowflakeCursor._execute (DESCRIBE second query)"],
-    bounds="14 DESCRIBE TABLE|VIEW / SHOW SCHEMAS / SHOW PRIMARY KEYS forms at every qualification level, with unquoted names in any letter case and quoted lower-, mixed- and upper-case names (incl. a space), from a session on db1.s1: the query that reaches the "
+    bounds="18 DESCRIBE TABLE|VIEW / SHOW SCHEMAS / SHOW PRIMARY|UNIQUE|IMPORTED KEYS forms at every qualification level, with unquoted names in any letter case and quoted lower-, mixed- and upper-case names (incl. a space), from a session on db1.s1: the query that reaches the "
     "engine restricts catalog / schema / table to the folded names of the statement, or of the session where the statement leaves them out",
     timeout=(200, 400),
     stubs=["K1/K2 vf.duckstub.Engine"],
